@@ -22,8 +22,15 @@ rc_clean, o2 = run(f"sh {dst}/run_demo.sh /repo")
 meta["demo_on_mutant_rc"] = rc_mut
 meta["demo_on_unchanged_rc"] = rc_clean
 meta["demo_on_mutant_tail"] = o1[-600:]
-rc_t, o3 = run(f"cmake --build {wt}/_build >/dev/null 2>&1; ctest --test-dir {wt}/_build -j4 --timeout 900 2>&1 | tail -6")
-meta["test_suite_with_change"] = o3[-500:]
+old_meta = os.path.join(dst, "meta.json")
+if os.environ.get("SEED_SKIP_TESTS") == "1" and os.path.exists(old_meta):
+    # re-validation after a check was strengthened: keep the recorded test-suite result and the first verdict
+    om = json.load(open(old_meta))
+    meta["test_suite_with_change"] = om["test_suite_with_change"]
+    meta["first_verdict_before_strengthening"] = om.get("first_verdict_before_strengthening", om["checks_on_mutant"])
+else:
+    rc_t, o3 = run(f"cmake --build {wt}/_build >/dev/null 2>&1; ctest --test-dir {wt}/_build -j4 --timeout 900 2>&1 | tail -6")
+    meta["test_suite_with_change"] = o3[-500:]
 res = {}
 for c in checks:
     t0 = time.time()
